@@ -817,6 +817,7 @@ void Lexer::yyinput()
 
     if (UNLIKELY(yychar_ == '\n')) {
         ++yylineno_;
+        yycolumn_ = 0;
         tree_->relayLineStart(offset_ + 1);
     }
 }
